@@ -11,9 +11,61 @@ WRAPPERS = ("insert_nested", "insert_cfg", "insert_conditional", "insert_tail_lo
 
 # ----------------------------------------------------------------------------- builder programs
 
+NEST_KINDS = ("dfg", "dfg0", "loop", "case", "block")
+
+
+def prog_nest(spec):
+    """A chain of nested dataflow regions below a Dfg; the builder of the INNERMOST region is the one whose insert_*
+    is called, and the wires on offer come from every level (outermost first), so that a wrapper call can be given
+    wires from enclosing regions.  spec = {"nest": [kind or kind+"+u", ...]}:
+      dfg    add_nested(bool, int)          dfg0   add_nested()  (a region without inputs)
+      loop   add_tail_loop([bool], [int])   case   add_conditional(bool, int).add_case(0)
+      block  add_cfg(bool, int).add_entry()
+    "+u": inside the new region a Not consumes the outermost Bool input (an inter-graph edge of A itself, so the state
+    order link from the outer Input node to the enclosing container exists BEFORE the wrapper call)."""
+    from hugr import tys
+    from hugr.build import Dfg
+    from hugr.std.int import INT_T
+    from hugr.std.logic import Not
+    B = tys.Bool
+    d = Dfg(B, B, INT_T)
+    b1, b2, i = d.inputs()
+    n = d.add_op(Not, b1)
+    avail = {"B": [b1, b2, n], "I": [i]}
+    cur, lb, li = d, b1, i
+    for k in spec["nest"]:
+        kind, _, flag = k.partition("+")
+        if kind == "dfg":
+            nb = cur.add_nested(lb, li)
+        elif kind == "dfg0":
+            nb = cur.add_nested()
+        elif kind == "loop":
+            nb = cur.add_tail_loop([lb], [li])
+        elif kind == "case":
+            nb = cur.add_conditional(lb, li).add_case(0)
+        elif kind == "block":
+            nb = cur.add_cfg(lb, li).add_entry()
+        else:
+            raise AssertionError(k)
+        ins = list(nb.inputs())
+        bs = [w for w in ins if nb.hugr.port_type(w.out_port()) == B]
+        is_ = [w for w in ins if nb.hugr.port_type(w.out_port()) == INT_T]
+        if flag == "u":
+            bs.append(nb.add_op(Not, b1))
+        avail["B"] += bs
+        avail["I"] += is_
+        cur = nb
+        lb = bs[0] if bs else lb          # what the next level is fed with (possibly an inter-graph wire again)
+        li = is_[0] if is_ else li
+    return cur, avail
+
+
 def prog_A(name):
-    """Outer builders: (builder whose insert_* is called, wires available as siblings of the insertion point)."""
+    """Outer builders: (builder whose insert_* is called, wires on offer for the inputs of the inserted root:
+    siblings of the insertion point, and for the nested family also outputs of nodes in enclosing regions)."""
     from hugr import ops, tys
+    if isinstance(name, dict):
+        return prog_nest(name)
     from hugr.build import Dfg, Module
     from hugr.std.int import INT_T
     from hugr.std.logic import Not
@@ -39,6 +91,13 @@ def prog_A(name):
         bb, ii = inner.inputs()
         x = inner.add_op(Not, bb)
         return inner, {"B": [bb, x], "I": [ii]}
+    if name == "cousin":                      # the wires on offer live in a SIBLING region: NoSiblingAncestor
+        d = Dfg(B, INT_T)
+        b, i = d.inputs()
+        other = d.add_nested(b, i)
+        bb, ii = other.inputs()
+        inner = d.add_nested()
+        return inner, {"B": [bb], "I": [ii]}
     raise AssertionError(name)
 
 
@@ -124,14 +183,17 @@ class C08(fw.Prop):
     rule = ("pairs of HUGRs (raw public-API histories with multi-linked ports, order links, metadata, deleted nodes "
             "and index reuse; and builder programs: Dfg / Module function / nested Dfg as target, Dfg, Dfg with a "
             "non-local edge, Cfg, Conditional, TailLoop as source), insert_hugr under every live parent (and None) "
-            "and the four builder wrappers; non-trivial = the source has a multi-linked port, an order link, a hole "
+            "and the four builder wrappers, also called on builders of regions nested 1-3 deep (Dfg, TailLoop, Case, "
+            "Cfg block) with wires taken from any enclosing level (inter-graph wires: state order link to the "
+            "ancestral sibling, once, unless already there); non-trivial = the source has a multi-linked port, an order link, a hole "
             "or a child below its parent in index order, or the call goes through a wrapper")
     trusted = ["object aliasing between source and target (shared op objects, metadata dicts) is outside the model; "
                "the returned mapping of a wrapper call is read by intercepting Hugr.insert_hugr on the instance",
                "for wrapper cases the port counts passed to _update_port_count are recomputed by the harness with "
                "hugr.ops._num_dataflow_ports"]
     assumptions = ["source and target satisfy the store invariant (built through the public API within C04's guard); "
-                   "the insertion parent is a live node of the target; wrapper wires are siblings of the inserted root"]
+                   "the insertion parent is a live node of the target; the source of a wrapper wire is a child of the "
+                   "insertion parent or of one of its proper ancestors (else NoSiblingAncestor: outside the guard)"]
 
     # ---- cases
     def corpus(self, ctx):
@@ -148,6 +210,15 @@ class C08(fw.Prop):
                                                   ["AddLink", [2, 0], [1, 1]]]}, "parent": None},
             {"kind": "prog", "A": "dfg", "B": "dfg", "via": "insert_nested"},
             {"kind": "prog", "A": "dfg", "B": "dfg", "via": "insert_hugr", "parent": None},
+            # seeded C08-e: a wrapper called on the builder of a nested region with a wire from the ENCLOSING region:
+            # the image of the root gets the wire, and the outer Input node a state order link to the container
+            {"kind": "prog", "A": {"nest": ["dfg0"]}, "B": "dfg_nonlocal", "via": "insert_nested", "pick": [0]},
+            # two wires from the same outer node (one order link), two levels up, through a Conditional and a TailLoop
+            {"kind": "prog", "A": {"nest": ["case", "loop"]}, "B": "dfg", "via": "insert_nested", "pick": [0, 1]},
+            # the order link is already there (A has an inter-graph edge from that Input node into the region)
+            {"kind": "prog", "A": {"nest": ["dfg+u"]}, "B": "loop", "via": "insert_tail_loop", "pick": [1, 0]},
+            # outside the guard: the wire's source sits in a sibling region (NoSiblingAncestor after the insertion)
+            {"kind": "prog", "A": "cousin", "B": "dfg_nonlocal", "via": "insert_nested"},
         ]
 
     def generate(self, rng, tier, ctx):
@@ -176,6 +247,15 @@ class C08(fw.Prop):
             cases.append({"kind": "prog", "A": an, "B": "cfg", "via": "insert_hugr", "parent": None})
             cases.append({"kind": "prog", "A": an, "B": "dfg", "via": "insert_hugr", "parent": 1})
         ctx.stats["builder_pairs"] = len(A_PROGS) * len(B_PROGS)
+        # wrappers called on builders of nested regions, wires from any enclosing level
+        for kind in NEST_KINDS:                                   # every container kind, every wire from the outermost
+            for bn in (B_PROGS if tier != "quick" else [B_PROGS[NEST_KINDS.index(kind) % len(B_PROGS)]]):
+                cases.append({"kind": "prog", "A": {"nest": [kind]}, "B": bn, "via": prog_B(bn)[1], "pick": [0]})
+        for _ in range(30 if tier == "quick" else 400):
+            nest = [rng.choice(NEST_KINDS) + rng.choice(["", "", "+u"]) for _ in range(rng.choice([1, 1, 2, 2, 3]))]
+            bn = rng.choice(B_PROGS)
+            pick = [rng.choice([0, 0, 1, 2, -1, -2, rng.randrange(12)]) for _ in range(2)]
+            cases.append({"kind": "prog", "A": {"nest": nest}, "B": bn, "via": prog_B(bn)[1], "pick": pick})
         return cases
 
     # ---- implementation run
@@ -210,7 +290,11 @@ class C08(fw.Prop):
             return {"hA": hA, "hB": hB, "parent": parent, "call": lambda: hA.insert_hugr(hB, parent), "wires": None}
         used = {}
         wires = []
-        for k in kinds:
+        pick = case.get("pick")
+        for j, k in enumerate(kinds):
+            if pick is not None:              # index into the wires on offer (outermost level first; -1 = most local)
+                wires.append(avail[k][pick[j % len(pick)] % len(avail[k])] if pick else avail[k][-1])
+                continue
             i = used.get(k, 0)
             wires.append(avail[k][i % len(avail[k])])
             used[k] = i + 1
@@ -295,10 +379,23 @@ class C08(fw.Prop):
 
     def signature(self, case, obs, ctx):
         if case["kind"] == "prog":
-            return "insert:prog:" + case["via"]
+            return "insert:prog:" + case["via"] + (":nested" if isinstance(case["A"], dict) else "")
         return "insert:hist:" + ",".join(sorted({c[0] for c in case["B"]["ops"]}))
 
     def shrink(self, case):
+        if case["kind"] == "prog" and isinstance(case["A"], dict):
+            nest = case["A"]["nest"]
+            for i in range(len(nest)):
+                if len(nest) > 1:
+                    yield {**case, "A": {"nest": nest[:i] + nest[i + 1:]}}
+                if "+" in nest[i]:
+                    yield {**case, "A": {"nest": nest[:i] + [nest[i].partition("+")[0]] + nest[i + 1:]}}
+            pick = case.get("pick") or []
+            for i in range(len(pick)):
+                for v in (-1, 0):
+                    if pick[i] != v:
+                        yield {**case, "pick": pick[:i] + [v] + pick[i + 1:]}
+            return
         if case["kind"] != "hist":
             return
         for side in ("B", "A"):
@@ -316,8 +413,20 @@ class C08(fw.Prop):
 
     def distribution(self, cases, observations):
         d = {"pairs": len(cases), "hist": 0, "prog": 0, "via": {}, "exceptions": {}, "max_nodes_B": 0, "max_links_B": 0,
-             "sources_with_holes": 0, "sources_child_below_parent": 0}
+             "sources_with_holes": 0, "sources_child_below_parent": 0, "wrapper_calls_on_nested_builders": 0,
+             "wrapper_wires": 0, "wrapper_wires_from_enclosing_regions": 0, "wrapper_calls_adding_an_order_link": 0,
+             "wrapper_calls_order_link_already_there": 0}
         for c, o in zip(cases, observations):
+            if o.get("wires") is not None and o["res"] == "Ok":
+                ga, p = o["obsA"]["get"], o["parent"]
+                d["wrapper_calls_on_nested_builders"] += p != o["obsA"]["root"]
+                far = [w for w in o["wires"] if ga[w[0]]["parent"] != p]
+                d["wrapper_wires"] += len(o["wires"])
+                d["wrapper_wires_from_enclosing_regions"] += len(far)
+                new_ord = len([l for l in o["obsA2"]["links"] if l[0][1] == -1 and l[0][0] in {w[0] for w in far}]) - \
+                    len([l for l in o["obsA"]["links"] if l[0][1] == -1 and l[0][0] in {w[0] for w in far}])
+                d["wrapper_calls_adding_an_order_link"] += new_ord > 0
+                d["wrapper_calls_order_link_already_there"] += bool(far) and new_ord < len({w[0] for w in far})
             d[c["kind"]] += 1
             v = c.get("via", "insert_hugr")
             d["via"][v] = d["via"].get(v, 0) + 1
